@@ -26,6 +26,7 @@ NP = "namespace_peers"
 
 
 EXPLANATION += ' (R8) who-may-write the peers table: register_useful_peer, remove_replica, the migrations.'
+EXPLANATION += ' Round 9: R3 also carries the destructor rows of C06.R4 (registrations still in the open transaction are committed when the store goes out of scope).'
 
 
 def tx_closure(f):
